@@ -1,7 +1,8 @@
 (* C20  Conformal flattening is an isometry on planar disks and never folds them. *)
-From Coq Require Import ZArith Reals List Lra.
-From EG Require Import Num.Num Num.RNum Lib.Vec Model.Types Model.Flatten.
-From EG Require Import Proofs.VecR Proofs.Flatten.
+From Coq Require Import ZArith Reals List Lra Permutation.
+From EG Require Import Num.Num Num.RNum Lib.Vec Model.Types Model.Flatten Model.Conformal.
+From EG Require Import Proofs.VecR Proofs.Flatten Proofs.Congruent Proofs.Conformal.
+Import ListNotations.
 Local Open Scope R_scope.
 
 (* UV round trips of the map: a UV point gives area coordinates that sum to one and reproduce it ... *)
@@ -15,3 +16,79 @@ Theorem C20_coordinates_roundtrip : forall (a b c : @V2 RNum) (w0 w1 w2 : R), ar
   bary2 a b c (uv_point a b c (w0, w1, w2)) = (w0, w1, w2).
 Proof. exact bary_unique. Qed.
 Print Assumptions C20_coordinates_roundtrip.
+
+(* "every edge keeps its length and every triangle keeps positive orientation, i.e. the original shape up to a rigid motion":
+   the per-face certificate that every run evaluates (Tie.C20.check_cert) is exactly that. One triangle ... *)
+Theorem C20_triangle_congruent : forall (a b c a' b' c' : P2),
+  dist2 a b = dist2 a' b' -> dist2 b c = dist2 b' c' -> dist2 a c = dist2 a' c' ->
+  0 < orient2 a b c -> 0 < orient2 a' b' c' ->
+  exists m, proper m /\ move m a = a' /\ move m b = b' /\ move m c = c'.
+Proof. exact triangle_congruent. Qed.
+Print Assumptions C20_triangle_congruent.
+
+(* ... and the whole mesh: one proper rigid motion of the plane carries every face that is connected to the first through shared
+   edges onto its layout ... *)
+Theorem C20_mesh_congruent : forall (src img : nat -> P2) (fs : list (nat * nat * nat)) (f0 : nat * nat * nat),
+  (forall f, In f fs -> face_ok src img f) -> In f0 fs ->
+  exists m, proper m /\ forall g, econn src fs f0 g -> maps_face src img m g.
+Proof. exact mesh_congruent. Qed.
+Print Assumptions C20_mesh_congruent.
+
+(* ... and nothing weaker would do: every proper rigid motion passes the certificate *)
+Theorem C20_motion_passes : forall (src img : nat -> P2) (m : motion) (f : nat * nat * nat), proper m ->
+  (forall v, In v (fverts f) -> img v = move m (src v)) ->
+  (let '(i, j, k) := f in 0 < orient2 (src i) (src j) (src k)) -> face_ok src img f.
+Proof. exact motion_passes. Qed.
+Print Assumptions C20_motion_passes.
+
+(* engeom's arithmetic upstream of the sparse solver (model Model/Conformal.v, tied through the hook conformal_verif).
+   The face angles are the angles of the triangle, for every non-degenerate triangle in space *)
+Theorem C20_face_angles_geometric : forall (p0 p1 p2 : P3),
+  let a := dist3 p1 p2 in let b := dist3 p2 p0 in let c := dist3 p0 p1 in
+  0 < a -> 0 < b -> 0 < c ->
+  let '(t0, t1, t2) := @face_angles RNum a b c in
+  (0 <= t0 <= PI /\ cos t0 = cos_at3 p0 p1 p2) /\
+  (0 <= t1 <= PI /\ cos t1 = cos_at3 p1 p2 p0) /\
+  (0 <= t2 <= PI /\ cos t2 = cos_at3 p2 p0 p1).
+Proof. exact face_angles_geometric. Qed.
+Print Assumptions C20_face_angles_geometric.
+
+(* the assembled matrix is a graph Laplacian plus the regulariser, whatever the weights: row i applied to x *)
+Theorem C20_laplacian_form : forall n edges (w : list R) x i, (i < n)%nat ->
+  @row_apply RNum (@triplets RNum n edges w) x i = @lap_eps RNum * x i + edge_sum i x (combine edges w).
+Proof. exact laplacian_form. Qed.
+Print Assumptions C20_laplacian_form.
+Theorem C20_laplacian_rows_sum : forall n edges (w : list R) i, (i < n)%nat ->
+  @row_apply RNum (@triplets RNum n edges w) (fun _ => 1) i = @lap_eps RNum.
+Proof. exact laplacian_rows_sum. Qed.
+Print Assumptions C20_laplacian_rows_sum.
+Theorem C20_laplacian_symmetric : forall n edges (w : list R) r c v, r <> c ->
+  In (r, c, v) (@triplets RNum n edges w) -> In (c, r, v) (@triplets RNum n edges w).
+Proof. exact laplacian_symmetric. Qed.
+Print Assumptions C20_laplacian_symmetric.
+
+(* with the edge table of identify_edges (C12) the edge-wise assembly is the sum over the faces of their cotangent terms *)
+Theorem C20_assembly_is_face_sum : forall (edges : list (nat * nat)) (faces fes : list (nat * nat * nat)) (angs : list (R * R * R)) (x : nat -> R) (i n : nat),
+  (i < n)%nat -> length fes = length faces -> length angs = length faces ->
+  Forall2 (table_ok edges) faces fes ->
+  @row_apply RNum (@triplets RNum n edges (@edge_weights RNum (length edges) fes angs)) x i
+  = @lap_eps RNum * x i + fold_right (fun ft acc => face_row i x (fst ft) (snd ft) + acc) 0 (combine faces angs).
+Proof. exact assembly_is_face_sum. Qed.
+Print Assumptions C20_assembly_is_face_sum.
+
+(* on a positively oriented planar triangle the two cotangent terms at a vertex are half the opposite edge turned by a right angle *)
+Theorem C20_face_contrib_planar : forall (p0 p1 p2 : P2), 0 < area2 p0 p1 p2 ->
+  face_contrib p0 p1 p2 = scale2 (J2 (sub2 p2 p1)) (/ 2).
+Proof. exact face_contrib_planar. Qed.
+Print Assumptions C20_face_contrib_planar.
+
+(* so that, for a planar mesh, the row of every vertex with a closed positively oriented fan maps both coordinate functions to
+   eps times the coordinate: the layout that reproduces the mesh satisfies the interior equations of the flattening *)
+Theorem C20_planar_coordinates_harmonic : forall (p : nat -> P2) (edges : list (nat * nat)) (faces fes others : list (nat * nat * nat)) (n i q0 : nat) (qs : list nat),
+  (i < n)%nat -> length fes = length faces -> Forall2 (table_ok edges) faces fes ->
+  Permutation faces (others ++ fan_faces i q0 qs q0) -> Forall (absent i) others -> fan_ok p i q0 qs q0 ->
+  let L := @triplets RNum n edges (@edge_weights RNum (length edges) fes (map (angles_of p) faces)) in
+  @row_apply RNum L (fun v => fst (p v)) i = @lap_eps RNum * fst (p i) /\
+  @row_apply RNum L (fun v => snd (p v)) i = @lap_eps RNum * snd (p i).
+Proof. exact planar_coordinates_harmonic. Qed.
+Print Assumptions C20_planar_coordinates_harmonic.
